@@ -411,7 +411,8 @@ func c20(p *Pkg, _ *Pkg, payload json.RawMessage, res *Result) {
 			if x.Livelock {
 				v = append(v, "livelock: horizon exceeded")
 			}
-			outcome := fmt.Sprintf("points=%d", x.Points/10*10)
+			// what the schedule made observable: completion order of the threads and how often control moved
+			outcome := fmt.Sprintf("finished=%v switches=%d", x.Finished, x.Switches)
 			if len(v) > 0 {
 				return strings.Join(v, "\n"), "violation"
 			}
